@@ -6,6 +6,7 @@ import (
 	"go/constant"
 	"go/token"
 	"go/types"
+	"golang.org/x/tools/go/cfg"
 	"os"
 	"sort"
 	"strings"
@@ -64,7 +65,7 @@ func checkC09OperatorNodes(c *Check, L *Loaded) {
 		}
 		ast.Inspect(cond, func(n ast.Node) bool {
 			if call, ok := n.(*ast.CallExpr); ok {
-				if fn := Callee(info, call); fn != nil && (fn.Name() == "matchAny" || fn.Name() == "matchSeq") {
+				if fn := Callee(info, call); fn != nil && (nameIs(fn, "matchAny") || nameIs(fn, "matchSeq")) {
 					found = true
 				}
 			}
@@ -209,6 +210,7 @@ func checkC09Comparator(c *Check, L *Loaded) {
 	installDDPTypesModels(in)
 	var less Closure
 	haveLess := false
+	threeWay := false // the comparator takes two elements and returns an int (slices.SortFunc) instead of two indices and a bool
 	in.Models["sort.Slice"] = func(in *Interp, pkg *packages.Package, call *ast.CallExpr, recv Val, args []Val) (Val, bool) {
 		if cl, ok := args[1].(Closure); ok {
 			less, haveLess = cl, true
@@ -216,8 +218,13 @@ func checkC09Comparator(c *Check, L *Loaded) {
 		return TupleV(nil), true
 	}
 	in.Models["sort.SliceStable"] = in.Models["sort.Slice"]
-	in.Models["slices.SortFunc"] = in.Models["sort.Slice"]
-	in.Models["slices.SortStableFunc"] = in.Models["sort.Slice"]
+	in.Models["slices.SortFunc"] = func(in *Interp, pkg *packages.Package, call *ast.CallExpr, recv Val, args []Val) (Val, bool) {
+		if cl, ok := args[1].(Closure); ok {
+			less, haveLess, threeWay = cl, true, true
+		}
+		return TupleV(nil), true
+	}
+	in.Models["slices.SortStableFunc"] = in.Models["slices.SortFunc"]
 	getter := func(field string) func(in *Interp, pkg *packages.Package, call *ast.CallExpr, recv Val, args []Val) (Val, bool) {
 		return func(in *Interp, pkg *packages.Package, call *ast.CallExpr, recv Val, args []Val) (Val, bool) {
 			if o, ok := recv.(*Obj); ok {
@@ -297,10 +304,22 @@ func checkC09Comparator(c *Check, L *Loaded) {
 		for j := range pop {
 			var res Val
 			in.RunAll(8, func() {
+				if threeWay {
+					res = in.callClosure(less, []Val{sl.Elems[i], sl.Elems[j]})
+					return
+				}
 				// the closure refers to matchedAliases of its defining call: bind it to the population
 				res = in.callClosure(less, []Val{ConstV{V: constantInt(i), T: intType()}, ConstV{V: constantInt(j), T: intType()}})
 			})
 			t, known := truth(res)
+			if threeWay {
+				known = false
+				if cv, ok := res.(ConstV); ok && cv.V != nil && cv.V.Kind() == constant.Int {
+					if n, exact := constant.Int64Val(cv.V); exact {
+						t, known = n < 0, true
+					}
+				}
+			}
 			if !known {
 				und++
 				if os.Getenv("VERIF_DEBUG") != "" && und < 4 {
@@ -345,7 +364,7 @@ func checkC09AliasLoop(c *Check, L *Loaded) {
 	ast.Inspect(fi.Decl.Body, func(n ast.Node) bool {
 		if as, ok := n.(*ast.AssignStmt); ok && len(as.Rhs) == 1 && searchAssign == nil {
 			if call, ok := as.Rhs[0].(*ast.CallExpr); ok {
-				if fn := Callee(info, call); fn != nil && fn.Name() == "Search" {
+				if fn := Callee(info, call); fn != nil && nameIs(fn, "Search") {
 					searchAssign = as
 					if id, ok := as.Lhs[0].(*ast.Ident); ok {
 						matched = info.Defs[id]
@@ -426,7 +445,7 @@ func checkC09AliasLoop(c *Check, L *Loaded) {
 	var chk *ast.CallExpr
 	ast.Inspect(loop.Body, func(n ast.Node) bool {
 		if call, ok := n.(*ast.CallExpr); ok {
-			if fn := Callee(info, call); fn != nil && fn.Name() == "checkAlias" && chk == nil {
+			if fn := Callee(info, call); fn != nil && nameIs(fn, "checkAlias") && chk == nil {
 				chk = call
 			}
 		}
@@ -469,54 +488,109 @@ func checkC09AliasLoop(c *Check, L *Loaded) {
 	r.Decide(fb, "parser.(*parser).alias|fallback is the first candidate", loop.Pos(), "the fallback candidate is fixed at the first (longest) one", "the candidate reported when none type-checks is not the first of the sorted list")
 	// R9.7
 	r7 := c.Rule("R9.7", "a call through the negated form of an alias is the logical negation of the call", 1)
+	// decided on the control-flow graph of the function (literal) that reads FuncAlias.Negated: a return of
+	// &ast.UnaryExpr{Operator: UN_NOT, Rhs: <the call>} must lie on paths where Negated is known to be true, a return of
+	// the bare *ast.FuncCall on paths where it is known to be false; at least one negating return exists
 	neg := false
-	ast.Inspect(fi.Decl.Body, func(n ast.Node) bool {
-		is, ok := n.(*ast.IfStmt)
-		if !ok {
-			return true
-		}
-		sel, ok := ast.Unparen(is.Cond).(*ast.SelectorExpr)
-		if !ok || sel.Sel.Name != "Negated" {
-			return true
-		}
-		for _, st := range is.Body.List {
-			ret, ok := st.(*ast.ReturnStmt)
-			if !ok || len(ret.Results) != 1 {
-				continue
-			}
-			ue, ok := ast.Unparen(ret.Results[0]).(*ast.UnaryExpr)
-			if !ok || ue.Op != token.AND {
-				continue
-			}
-			cl, ok := ue.X.(*ast.CompositeLit)
+	{
+		isNegated := func(e ast.Expr) bool {
+			sel, ok := ast.Unparen(e).(*ast.SelectorExpr)
 			if !ok {
-				continue
+				return false
 			}
-			opOK, rhsOK := false, false
-			for _, el := range cl.Elts {
-				kv, ok := el.(*ast.KeyValueExpr)
-				if !ok {
+			v := fieldOf(info, sel)
+			return v != nil && nameIs(v, "Negated")
+		}
+		var body *ast.BlockStmt
+		ast.Inspect(fi.Decl.Body, func(n ast.Node) bool {
+			if sel, ok := n.(*ast.SelectorExpr); ok && isNegated(sel) && body == nil {
+				body = fi.Decl.Body
+				if fl := enclosingFuncLit(fi.Decl.Body, sel); fl != nil {
+					body = fl.Body
+				}
+			}
+			return true
+		})
+		if body != nil {
+			g := L.CFGBody(fi.Pkg, body)
+			const negTrue, negFalse = 1, 2
+			mf := &mustFlow{G: g, Init: 0, Transfer: func(n ast.Node, s uint32) uint32 { return s },
+				Edge: func(b *cfg.Block, i int, s uint32) uint32 {
+					if len(b.Nodes) == 0 {
+						return s
+					}
+					cond, ok := b.Nodes[len(b.Nodes)-1].(ast.Expr)
+					if !ok {
+						return s
+					}
+					cond = ast.Unparen(cond)
+					inv := false
+					if u, ok := cond.(*ast.UnaryExpr); ok && u.Op == token.NOT {
+						inv = true
+						cond = ast.Unparen(u.X)
+					}
+					if !isNegated(cond) {
+						return s
+					}
+					if (i == 0) != inv {
+						return s | negTrue
+					}
+					return s | negFalse
+				}}
+			mf.Run()
+			notCalls, problems := 0, 0
+			for _, b := range g.Blocks {
+				if !b.Live {
 					continue
 				}
-				switch kv.Key.(*ast.Ident).Name {
-				case "Operator":
-					if tv, ok := info.Types[kv.Value]; ok && tv.Value != nil {
-						if s, ok := kv.Value.(*ast.SelectorExpr); ok && s.Sel.Name == "UN_NOT" {
-							opOK = true
+				for i, n := range b.Nodes {
+					ret, ok := n.(*ast.ReturnStmt)
+					if !ok || len(ret.Results) != 1 {
+						continue
+					}
+					st := mf.StateAt(b, i)
+					res := ast.Unparen(ret.Results[0])
+					if ue, ok := res.(*ast.UnaryExpr); ok && ue.Op == token.AND {
+						if cl, ok := ue.X.(*ast.CompositeLit); ok {
+							if t := info.TypeOf(cl); t != nil && strings.HasSuffix(t.String(), "ast.UnaryExpr") {
+								opOK, rhsOK := false, false
+								for _, el := range cl.Elts {
+									kv, ok := el.(*ast.KeyValueExpr)
+									if !ok {
+										continue
+									}
+									kid, _ := kv.Key.(*ast.Ident)
+									if kid == nil {
+										continue
+									}
+									switch kid.Name {
+									case "Operator":
+										if s, ok := ast.Unparen(kv.Value).(*ast.SelectorExpr); ok && s.Sel.Name == "UN_NOT" {
+											opOK = true
+										}
+									case "Rhs":
+										if t := info.TypeOf(kv.Value); t != nil && strings.HasSuffix(t.String(), "ast.FuncCall") {
+											rhsOK = true
+										}
+									}
+								}
+								if opOK && rhsOK && st&negTrue != 0 {
+									notCalls++
+								} else {
+									problems++
+								}
+								continue
+							}
 						}
 					}
-				case "Rhs":
-					if t := info.TypeOf(kv.Value); t != nil && strings.HasSuffix(t.String(), "ast.FuncCall") {
-						rhsOK = true
+					if t := info.TypeOf(res); t != nil && strings.HasSuffix(t.String(), "ast.FuncCall") && st&negFalse == 0 {
+						problems++ // the bare call is returned although the alias may be the negated form
 					}
 				}
 			}
-			if opOK && rhsOK {
-				neg = true
-			}
+			neg = notCalls > 0 && problems == 0
 		}
-		return true
-	})
+	}
 	r7.Decide(neg, "parser.(*parser).alias|negated alias", fi.Decl.Pos(), "Negated ⇒ UnaryExpr{UN_NOT, Rhs: the call}", "a call written with the negated form of an alias is not wrapped in 'nicht' applied to the call")
 }
 
@@ -687,6 +761,8 @@ func tokenCaseSets(info *types.Info, sw *ast.SwitchStmt) [][]string {
 		sort.Strings(names)
 		out = append(out, names)
 	}
+	// the clauses of a switch over one token type are disjoint: their order does not matter
+	sort.Slice(out, func(i, j int) bool { return strings.Join(out[i], ",") < strings.Join(out[j], ",") })
 	return out
 }
 
@@ -741,7 +817,7 @@ func checkC09Siblings(c *Check, L *Loaded) {
 					if s, ok := ast.Unparen(e).(*ast.SelectorExpr); ok && s.Sel.Name == "NEGATE" {
 						ast.Inspect(cc, func(n ast.Node) bool {
 							if call, ok := n.(*ast.CallExpr); ok {
-								if fn := Callee(info, call); fn != nil && fn.Name() == "matchAny" {
+								if fn := Callee(info, call); fn != nil && nameIs(fn, "matchAny") {
 									var ns []string
 									for _, a := range call.Args {
 										if s, ok := a.(*ast.SelectorExpr); ok {
@@ -762,32 +838,76 @@ func checkC09Siblings(c *Check, L *Loaded) {
 		fa, fb := follow(s1), follow(s2)
 		r.Decide(fa == fb && fa != "", "parser.(*parser).alias / checkAlias|tokens after a minus sign", s2.Pos(), "both accept "+fa, "after a minus sign the search accepts "+fa+" but the check "+fb)
 	}
-	// Referenz admission set vs assigneable()
+	// Referenz admission set vs assigneable(): the early rejection `return nil, ...` whose enclosing conditions (one
+	// compound condition or nested ifs) test IsReference; the admitted forms are the constants the token type is
+	// compared with by != in those conditions
 	var admitted []string
 	var admPos token.Pos
-	ast.Inspect(chkFn.Decl.Body, func(n ast.Node) bool {
-		is, ok := n.(*ast.IfStmt)
-		if !ok || len(admitted) > 0 {
-			return true
-		}
-		// cond mentions .IsReference and compares pType != token.X ...
-		txt := types.ExprString(is.Cond)
-		if !strings.Contains(txt, "IsReference") || !strings.Contains(txt, "!=") {
-			return true
-		}
-		ast.Inspect(is.Cond, func(m ast.Node) bool {
-			if be, ok := m.(*ast.BinaryExpr); ok && be.Op == token.NEQ {
-				if s, ok := ast.Unparen(be.Y).(*ast.SelectorExpr); ok {
-					if tv, ok := info.Types[be.Y]; ok && tv.Value != nil {
-						admitted = append(admitted, s.Sel.Name)
-					}
+	mentionsIsRef := func(e ast.Expr) bool {
+		found := false
+		ast.Inspect(e, func(m ast.Node) bool {
+			if sel, ok := m.(*ast.SelectorExpr); ok {
+				if v := fieldOf(info, sel); v != nil && nameIs(v, "IsReference") {
+					found = true
 				}
 			}
 			return true
 		})
-		admPos = is.Pos()
-		return true
-	})
+		return found
+	}
+	{
+		var stack []ast.Node
+		ast.Inspect(chkFn.Decl.Body, func(n ast.Node) bool {
+			if n == nil {
+				stack = stack[:len(stack)-1]
+				return true
+			}
+			stack = append(stack, n)
+			ret, ok := n.(*ast.ReturnStmt)
+			if !ok || len(admitted) > 0 || len(ret.Results) == 0 || !info.Types[ret.Results[0]].IsNil() {
+				return true
+			}
+			// conditions of the ifs whose then-branch contains the return, innermost loop/function as the boundary
+			var conds []ast.Expr
+			for i := len(stack) - 2; i >= 0; i-- {
+				switch x := stack[i].(type) {
+				case *ast.IfStmt:
+					if i+1 < len(stack) && stack[i+1] == ast.Node(x.Body) {
+						conds = append(conds, x.Cond)
+					}
+				case *ast.ForStmt, *ast.RangeStmt, *ast.FuncLit:
+					i = -1
+				}
+			}
+			isRef := false
+			for _, cnd := range conds {
+				if mentionsIsRef(cnd) {
+					isRef = true
+				}
+			}
+			if !isRef {
+				return true
+			}
+			var adm []string
+			for _, cnd := range conds {
+				ast.Inspect(cnd, func(m ast.Node) bool {
+					if be, ok := m.(*ast.BinaryExpr); ok && be.Op == token.NEQ {
+						if s, ok := ast.Unparen(be.Y).(*ast.SelectorExpr); ok {
+							if tv, ok := info.Types[be.Y]; ok && tv.Value != nil {
+								adm = append(adm, s.Sel.Name)
+							}
+						}
+					}
+					return true
+				})
+			}
+			if len(adm) > 0 {
+				admitted = adm
+				admPos = ret.Pos()
+			}
+			return true
+		})
+	}
 	sort.Strings(admitted)
 	// assigneable(): starts from the previous token being an identifier, or - tested explicitly - something else
 	parses := []string{"IDENTIFIER"}
@@ -795,7 +915,7 @@ func checkC09Siblings(c *Check, L *Loaded) {
 		if be, ok := n.(*ast.BinaryExpr); ok && be.Op == token.EQL {
 			if call, ok := ast.Unparen(be.X).(*ast.SelectorExpr); ok && call.Sel.Name == "Type" {
 				if inner, ok := ast.Unparen(call.X).(*ast.CallExpr); ok {
-					if fn := Callee(info, inner); fn != nil && fn.Name() == "previous" {
+					if fn := Callee(info, inner); fn != nil && nameIs(fn, "previous") {
 						if s, ok := ast.Unparen(be.Y).(*ast.SelectorExpr); ok {
 							parses = append(parses, s.Sel.Name)
 						}
@@ -812,7 +932,7 @@ func checkC09Siblings(c *Check, L *Loaded) {
 		var fl *ast.FuncLit
 		ast.Inspect(aliasFn.Decl.Body, func(n ast.Node) bool {
 			if call, ok := n.(*ast.CallExpr); ok && fl == nil {
-				if fn := Callee(info, call); fn != nil && fn.Name() == "Search" && len(call.Args) == 1 {
+				if fn := Callee(info, call); fn != nil && nameIs(fn, "Search") && len(call.Args) == 1 {
 					fl, _ = call.Args[0].(*ast.FuncLit)
 				}
 			}
@@ -824,7 +944,7 @@ func checkC09Siblings(c *Check, L *Loaded) {
 			var pos token.Pos
 			ast.Inspect(fl.Body, func(n ast.Node) bool {
 				is, ok := n.(*ast.IfStmt)
-				if !ok || !strings.Contains(types.ExprString(is.Cond), "IsReference") {
+				if !ok || !mentionsIsRef(is.Cond) {
 					return true
 				}
 				rejects := false
@@ -877,14 +997,7 @@ func checkC09Overloads(c *Check, L *Loaded) {
 	}
 	in := NewInterp(L)
 	installDDPTypesModels(in)
-	var cmp Closure
-	have := false
-	in.Models["slices.BinarySearchFunc"] = func(in *Interp, pkg *packages.Package, call *ast.CallExpr, recv Val, args []Val) (Val, bool) {
-		if cl, ok := args[2].(Closure); ok {
-			cmp, have = cl, true
-		}
-		return TupleV{Unk{"i"}, Unk{"found"}}, true
-	}
+	installSearchModels(in)
 	in.Models["ddptypes.CastDeeplyNestedGenerics"] = func(in *Interp, pkg *packages.Package, call *ast.CallExpr, recv Val, args []Val) (Val, bool) {
 		if tv, ok := args[0].(TypeV); ok {
 			d := tv.T
@@ -927,57 +1040,67 @@ func checkC09Overloads(c *Check, L *Loaded) {
 		d.set("Parameters", ps)
 		return d
 	}
-	pobj := newObj("parser")
-	pobj.set("Operators", MapV{})
-	in.RunAll(8, func() {
-		in.CallFunc(fi, pobj, []Val{mkDecl(feat{0, 0})})
-	})
-	if !have {
-		r.Und("parser.(*parser).insertOperatorOverload|comparator", fi.Decl.Pos(), "no comparator handed to a binary search was found")
-	} else {
-		var pop []feat
-		for g := 0; g <= 1; g++ {
-			for rf := 0; rf <= 2; rf++ {
-				pop = append(pop, feat{g, rf})
-			}
+	// decided on a finite model of the whole insertion (whatever search helper it uses): declarations with 0..1 generic and
+	// 0..2 Referenz parameters are inserted in several orders; afterwards the table must list non-generic overloads before
+	// generic ones and, within each group, more Referenz parameters first
+	var pop []feat
+	for g := 0; g <= 1; g++ {
+		for rf := 0; rf <= 2; rf++ {
+			pop = append(pop, feat{g, rf})
 		}
-		sign := func(x int) int {
-			switch {
-			case x < 0:
-				return -1
-			case x > 0:
-				return 1
+	}
+	orders := [][]int{{0, 1, 2, 3, 4, 5}, {5, 4, 3, 2, 1, 0}, {3, 0, 5, 1, 4, 2}, {2, 5, 1, 3, 0, 4}, {4, 2, 0, 5, 3, 1}}
+	op := ConstV{V: constant.MakeInt64(1), T: types.Typ[types.Int]}
+	var bad []string
+	und := ""
+	for _, ord := range orders {
+		pobj := newObj("parser")
+		pobj.set("Operators", MapV{Exact: true})
+		featOf := map[*Obj]feat{}
+		for _, k := range ord {
+			d := mkDecl(pop[k])
+			d.set("Operator", op)
+			featOf[d] = pop[k]
+			runs, _ := in.RunAll(8, func() { in.CallFunc(fi, pobj, []Val{d}) })
+			if runs != 1 {
+				und = "the insertion depends on something the evaluation does not know"
 			}
-			return 0
-		}
-		want := func(a, b feat) int {
-			if a.gen != b.gen {
-				return sign(a.gen - b.gen)
-			}
-			return sign(b.refs - a.refs)
-		}
-		var bad []string
-		und := 0
-		for _, a := range pop {
-			for _, b := range pop {
-				var res Val
-				in.RunAll(8, func() { res = in.callClosure(cmp, []Val{mkDecl(a), mkDecl(b)}) })
-				cv, ok := res.(ConstV)
-				if !ok || cv.V == nil {
-					und++
-					continue
-				}
-				k, _ := constant.Int64Val(cv.V)
-				if sign(int(k)) != want(a, b) {
-					bad = append(bad, fmt.Sprintf("cmp(generic=%d refs=%d, generic=%d refs=%d) has sign %d, expected %d", a.gen, a.refs, b.gen, b.refs, sign(int(k)), want(a, b)))
+			for _, ev := range in.Events {
+				if ev.Kind == "panic" {
+					und = "panic: " + ev.Msg
 				}
 			}
 		}
-		if und > 0 {
-			r.Und("parser.(*parser).insertOperatorOverload|comparator", fi.Decl.Pos(), fmt.Sprintf("%d comparisons not evaluated", und))
-		} else {
-			r.Decide(len(bad) == 0, "parser.(*parser).insertOperatorOverload|comparator", fi.Decl.Pos(), "36 ordered pairs: non-generic before generic, more Referenz parameters first", strings.Join(firstN(bad, 3), "; ")+": the lookup, which stops at the first generic overload and takes the first match, can skip or prefer the wrong overload")
+		mv, _ := pobj.get("Operators").(MapV)
+		var table []feat
+		if len(mv.Vals) == 1 {
+			if sl, ok := mv.Vals[0].(SliceV); ok {
+				for _, e := range sl.Elems {
+					if o, ok := e.(*Obj); ok {
+						table = append(table, featOf[o])
+					}
+				}
+			}
 		}
+		if len(table) != len(ord) {
+			if und == "" {
+				und = fmt.Sprintf("after %d insertions the table holds %d overloads", len(ord), len(table))
+			}
+			continue
+		}
+		for i := 1; i < len(table); i++ {
+			a, b := table[i-1], table[i]
+			if a.gen > b.gen || (a.gen == b.gen && a.refs < b.refs) {
+				bad = append(bad, fmt.Sprintf("inserting in the order %v leaves (generic=%d, Referenz=%d) before (generic=%d, Referenz=%d)", ord, a.gen, a.refs, b.gen, b.refs))
+				break
+			}
+		}
+	}
+	switch {
+	case und != "" && len(bad) == 0:
+		r.Und("parser.(*parser).insertOperatorOverload|comparator", fi.Decl.Pos(), und)
+	default:
+		r.Decide(len(bad) == 0, "parser.(*parser).insertOperatorOverload|comparator", fi.Decl.Pos(), fmt.Sprintf("%d insertion orders of 6 declarations: the table stays non-generic before generic, more Referenz parameters first", len(orders)), strings.Join(firstN(bad, 2), "; ")+": the lookup, which stops at the first generic overload and takes the first match, can skip or prefer the wrong overload")
 	}
 	// selection by equality
 	for _, name := range []string{"findOverload", "findOverloadCast"} {
@@ -1010,12 +1133,26 @@ func checkC09Overloads(c *Check, L *Loaded) {
 					return false
 				}
 				fn := Callee(info, call)
-				if fn == nil || fn.Name() != "Equal" || !strings.HasSuffix(fn.Pkg().Path(), "/ddptypes") {
+				if fn == nil || !nameIs(fn, "Equal") || !strings.HasSuffix(fn.Pkg().Path(), "/ddptypes") {
 					return false
 				}
 				for _, a := range call.Args {
-					if strings.HasSuffix(types.ExprString(a), "operand.typ") {
-						hasEq = true
+					// the type of an operand: a ddptypes.Type field of the operand record (a struct of this package that
+					// pairs a type with the expression it belongs to), whatever the loop variable is called
+					if sel, ok := ast.Unparen(a).(*ast.SelectorExpr); ok {
+						if v := fieldOf(info, sel); v != nil && strings.HasSuffix(v.Type().String(), "/ddptypes.Type") {
+							if st, ok := info.TypeOf(sel.X).Underlying().(*types.Struct); ok {
+								hasExpr := false
+								for i := 0; i < st.NumFields(); i++ {
+									if strings.HasSuffix(st.Field(i).Type().String(), "/ast.Expression") {
+										hasExpr = true
+									}
+								}
+								if hasExpr {
+									hasEq = true
+								}
+							}
+						}
 					}
 				}
 				return true
